@@ -1,4 +1,5 @@
 import HcipyVerif.Lemmas.FieldProg
+import HcipyVerif.Lemmas.FourierSwitch
 
 /-!
 # C19 — results do not depend on the configured Field implementation (model level)
@@ -245,5 +246,164 @@ theorem copy_is_independent_old (gs : Grids) (so s1 s2 : OState) (x y : Nat) (u 
       simp [lookup_bind, Ne.symm hxy, hx]
     obtain ⟨_, _, _, _, _, _, _, hother⟩ := inplace_writes_through_old gs _ s2 x u args c hx1 h2
     exact hother y so.cells.length (by simp [lookup_bind]) (by omega)
+
+/-! ## The Fourier half: backend selection, MFT / NFT switches (`Model/FourierSwitch.lean`)
+
+Tied by the driver ops `select`, `mft`, `nft` (harness: `run_select_tie`, `run_cache_tie`): the real
+`_make_func` closures are re-made over recording fake backends, and the attributes of reused real
+`MatrixFourierTransform` / `NaiveFourierTransform` objects are read after every call. -/
+section Fourier
+open HcipyVerif.FourierSwitch
+
+/-- **Backend selection returns the first working backend** in the order the code tries them
+(threads-major: every method with the first number of threads, then every method with the next),
+`ValueError` iff none works.  Any list of methods, any availability / failure pattern. -/
+theorem select_first_working (cpu : Nat) (avail : Method → Bool) (works : Method → Nat → Bool)
+    (methods : List Method) (threads : Option Nat) (big : Bool) :
+    select cpu avail works methods threads big =
+      match (tryOrder methods (threadAttempts cpu threads big)).find? (fun p => callable avail works p.1 p.2) with
+      | some p => .ok p
+      | none => .error .value :=
+  selectIn_eq_find avail works methods _
+
+/-- what `select_first_working` gives for a successful selection: the backend is in the list, is
+importable, did not raise, was called in one of the thread attempts — and it is not `other` -/
+theorem select_ok_sound (cpu : Nat) (avail : Method → Bool) (works : Method → Nat → Bool)
+    (methods : List Method) (threads : Option Nat) (big : Bool) (m : Method) (t : Nat)
+    (h : select cpu avail works methods threads big = .ok (m, t)) :
+    m ∈ methods ∧ t ∈ threadAttempts cpu threads big ∧ usable avail m = true ∧ works m t = true ∧ m ≠ .other := by
+  rw [select_first_working] at h
+  cases hf : (tryOrder methods (threadAttempts cpu threads big)).find? (fun p => callable avail works p.1 p.2) with
+  | none => simp [hf] at h
+  | some p =>
+    simp only [hf, Except.ok.injEq] at h
+    subst h
+    have hp := List.find?_some hf
+    have hm := List.mem_of_find?_eq_some hf
+    simp only [tryOrder, List.mem_flatMap, List.mem_map, Prod.mk.injEq] at hm
+    obtain ⟨t', ht, m', hm', rfl, rfl⟩ := hm
+    simp only [callable, Bool.and_eq_true] at hp
+    refine ⟨hm', ht, hp.1, hp.2, ?_⟩
+    intro ho; rw [ho] at hp; simp [usable] at hp
+
+example : select 4 (fun _ => false) (fun m t => m == .numpy || t == 1) [.mkl, .scipy, .numpy] none true = .ok (.numpy, 4) := rfl
+
+/-- **Selection is total when `threads` is left at `None`**: the only exception it can raise is the
+`ValueError`, and it raises it iff no listed backend works with any attempted number of threads; in
+particular one backend that works single-threaded suffices, whatever the size of the input. -/
+theorem select_total_when_threads_none (cpu : Nat) (avail : Method → Bool) (works : Method → Nat → Bool)
+    (methods : List Method) (big : Bool) :
+    (∀ e, select cpu avail works methods none big = .error e ↔
+      e = .value ∧ ∀ t ∈ threadAttempts cpu none big, ∀ m ∈ methods, callable avail works m t = false) ∧
+    ((∃ m ∈ methods, callable avail works m 1 = true) → ∃ r, select cpu avail works methods none big = .ok r) := by
+  refine ⟨fun e => selectIn_error_iff avail works methods _ e, ?_⟩
+  rintro ⟨m, hm, hc⟩
+  cases hs : select cpu avail works methods none big with
+  | ok r => exact ⟨r, rfl⟩
+  | error e =>
+    have := ((selectIn_error_iff avail works methods _ e).mp hs).2 1 (by cases big <;> simp [threadAttempts]) m hm
+    rw [this] at hc; cases hc
+
+/-- with an explicit `threads=t` (after D190): that number of threads only -/
+theorem select_explicit_threads (cpu : Nat) (avail : Method → Bool) (works : Method → Nat → Bool)
+    (methods : List Method) (t : Nat) (big : Bool) :
+    (∃ r, select cpu avail works methods (some t) big = .ok r) ↔ ∃ m ∈ methods, callable avail works m t = true := by
+  constructor
+  · rintro ⟨⟨m, t'⟩, h⟩
+    obtain ⟨hm, ht, hu, hw, _⟩ := select_ok_sound _ _ _ _ _ _ _ _ h
+    simp only [threadAttempts, List.mem_singleton] at ht
+    subst ht
+    exact ⟨m, hm, by simp [callable, hu, hw]⟩
+  · rintro ⟨m, hm, hc⟩
+    cases hs : select cpu avail works methods (some t) big with
+    | ok r => exact ⟨r, rfl⟩
+    | error e =>
+      have := ((selectIn_error_iff avail works methods _ e).mp hs).2 t (by simp [threadAttempts]) m hm
+      rw [this] at hc; cases hc
+
+/-- **/repo before D190**: every call with an explicit `threads=` raises `UnboundLocalError`, whatever
+the backends do — although the repaired code succeeds as soon as one listed backend works with that
+number of threads (defect D190; `Old` code — documentation, the tie runs `select`). -/
+theorem Old.selectOld_explicit_threads_crashes (cpu : Nat) (avail : Method → Bool) (works : Method → Nat → Bool)
+    (methods : List Method) (t : Nat) (big : Bool) :
+    selectOld cpu avail works methods (some t) big = .error .unbound ∧
+    ((∃ m ∈ methods, callable avail works m t = true) →
+      ∃ r, select cpu avail works methods (some t) big = .ok r) :=
+  ⟨rfl, (select_explicit_threads cpu avail works methods t big).mpr⟩
+
+/-- **The result does not depend on which backend answered**: if every backend computes the same
+transform `dft` (for every number of workers) and the input has a standard bit depth (single, double,
+integer), then every successful configuration — any method list, any `threads=`, any pattern of missing
+or failing backends — returns `dft x` at the native bit depth of the input. -/
+theorem select_value_independent {X Y : Type} (k : Method → Option Nat → X → Y) (dft : X → Y)
+    (hk : ∀ m w x, m ≠ .other → k m w x = dft x)
+    (cpu : Nat) (avail : Method → Bool) (works : Method → Nat → Bool) (methods : List Method)
+    (threads : Option Nat) (big : Bool) (d : DtIn) (hd : d.standard = true) (x : X) (r : Prec × Y)
+    (h : fftResult k cpu avail works methods threads big d x = .ok r) : r = (nativePrec d, dft x) := by
+  unfold fftResult at h
+  cases hs : select cpu avail works methods threads big with
+  | error e => simp [hs, Except.map] at h
+  | ok mt =>
+    obtain ⟨m, t⟩ := mt
+    simp only [hs, Except.map, Except.ok.injEq] at h
+    subst h
+    have hne := (select_ok_sound _ _ _ _ _ _ _ _ hs).2.2.2.2
+    rw [hk m _ x hne]
+    congr 1
+    cases m <;> cases d <;> simp_all [outPrec, numpyPrec, nativePrec, DtIn.standard]
+
+example : fftResult (fun _ _ (x : Nat) => x + 1) 4 (fun _ => false) (fun _ _ => true) [.mkl, .numpy] (some 2) false .single 5
+    = .ok (.single, 6) := rfl
+
+/-- outside the standard depths the `numpy` branch *does* differ (float16 → complex128 instead of
+complex64, longdouble → complex128 instead of complex256): the harness checks that the real code shows
+exactly this and records it as an accepted divergence (bit depths hcipy does not use). -/
+theorem numpy_depth_divergence :
+    outPrec .numpy .half ≠ outPrec .scipy .half ∧ outPrec .numpy .longdouble ≠ outPrec .scipy .longdouble ∧
+    ∀ d, d.standard = true → ∀ m, outPrec m d = nativePrec d := by
+  refine ⟨by decide, by decide, ?_⟩
+  intro d hd m
+  cases m <;> cases d <;> simp_all [outPrec, numpyPrec, nativePrec, DtIn.standard]
+
+/-- **MFT switches**: for every call script on one `MatrixFourierTransform` object — any mixture of
+forward/backward, of complex64/complex128 inputs — and every setting of `precompute_matrices` and
+`allocate_intermediate`, every call returns what a fresh object with both switches off returns.
+Proof by the invariant `Keyed` (recorded dtype = dtype the matrices were made for). -/
+theorem mft_switch_independent {X M B R : Type} (K : MftKern X M B R) (pre alloc : Bool)
+    (script : List (Dir × CPrec × X)) :
+    mftRun K pre alloc script = script.map fun s => mftFresh K s.1 s.2.1 s.2.2 :=
+  mftRunFrom_spec K pre alloc script {} (keyed_empty K)
+
+/-- the same from any reachable (keyed) cache state, one call; the cache stays keyed -/
+theorem mft_call_independent {X M B R : Type} (K : MftKern X M B R) (pre alloc : Bool) (c : MftCache M B)
+    (hk : Keyed K c) (d : Dir) (p : CPrec) (x : X) :
+    (mftCall K pre alloc c d p x).1 = mftFresh K d p x ∧ Keyed K (mftCall K pre alloc c d p x).2 := by
+  obtain ⟨h1, h2⟩ := mftCall_spec K pre alloc c hk d p x
+  exact ⟨by rw [h1, mftFresh, (mftCall_spec K false false {} (keyed_empty K) d p x).1], h2⟩
+
+example : Keyed provKern (mftCall provKern true true {} .fwd .c64 (0, .c128)).2 :=
+  (mft_call_independent provKern true true {} (keyed_empty _) .fwd .c64 (0, .c128)).2
+
+/-- the model *can* fail: with an intermediate that is allocated only when there is none (seeded
+defect C19-2), `allocate_intermediate=True` makes the second call of the script complex64 → complex128
+read the stale single-precision product of the first call; with the switch off it is correct. -/
+theorem mft_bad_cache_counterexample :
+    let script : List (Dir × CPrec × (Nat × CPrec)) := [(.fwd, .c64, (0, .c64)), (.fwd, .c128, (1, .c128))]
+    (mftRunFrom (mftCallBad provKern false true) {} script).1 ≠ script.map (fun s => mftFresh provKern s.1 s.2.1 s.2.2) ∧
+    (mftRunFrom (mftCallBad provKern false false) {} script).1 = script.map (fun s => mftFresh provKern s.1 s.2.1 s.2.2) := by
+  decide
+
+/-- **NFT switch**: with `precompute_matrices` on or off, every call of every script returns the
+on-the-fly sum cast to the complex dtype of the input — given that the cached matrix applied to a field
+*is* that sum (`hd`: the matrix identity, C02's subject; the harness checks it against the defining sum). -/
+theorem nft_switch_independent {X A R : Type} (K : NftKern X A R)
+    (hd : ∀ d x, K.apply (K.matrix d) x = K.direct d x) (pre : Bool) (script : List (Dir × CPrec × X)) :
+    (nftRunFrom K pre {} script).1 = (nftRunFrom K false {} script).1 := by
+  rw [nftRunFrom_spec K hd pre script {} (nftKeyed_empty K), nftRunFrom_spec K hd false script {} (nftKeyed_empty K)]
+
+example : ∃ K : NftKern Nat Nat Nat, ∀ d x, K.apply (K.matrix d) x = K.direct d x :=
+  ⟨⟨fun _ => 2, fun a x => a * x, fun _ x => 2 * x, fun _ r => r⟩, fun _ _ => rfl⟩
+
+end Fourier
 
 end HcipyVerif.C19
